@@ -196,3 +196,14 @@ impl tokio::io::AsyncWrite for SendStream {
         Pin::new(&mut self.0).poll_shutdown(cx)
     }
 }
+
+#[cfg(feature = "verif-hooks")]
+pub(crate) mod verif_hooks {
+    //! Thin wrappers for the external verification harness.
+    use super::*;
+
+    /// The QUIC connection underneath, so that the harness can misbehave on it as a remote peer could.
+    pub fn quinn_connection(connection: &Connection) -> quinn::Connection {
+        connection.inner.clone()
+    }
+}
